@@ -74,6 +74,18 @@ pub struct HipStr<'borrow, B>(HipByt<'borrow, B>)
 where
     B: Backend;
 
+/// Verification hooks.
+#[cfg(hipstr_verif)]
+impl<'borrow, B> HipStr<'borrow, B>
+where
+    B: Backend,
+{
+    /// Returns the underlying byte string.
+    pub fn verif_bytes(&self) -> &crate::bytes::HipByt<'borrow, B> {
+        &self.0
+    }
+}
+
 impl<'borrow, B> HipStr<'borrow, B>
 where
     B: Backend,
